@@ -20,7 +20,34 @@ impl Append for Nop {
 const APP_POOL: [&str; 2] = ["A", "B"];
 const REF_POOL: [&str; 3] = ["A", "B", "Z"];
 /// (name, well-formed)
-const LOG_POOL: [(&str, bool); 5] = [("a", true), ("a::b", true), ("b", true), ("a:", false), ("", false)];
+/// all names have the same length: a name whose *length* is the solver's choice makes every
+/// `String` allocation and copy symbolic in size, which the SAT translation does not survive
+const LOG_POOL: [(&str, bool); 5] = [("a::b", true), ("a::c", true), ("::ab", true), ("a:::", false), ("a:bc", false)];
+
+/// the pool entry chosen by `idx`, assembled by a concrete walk over the pool (constant length,
+/// symbolic content)
+fn pick4(pool: &[(&'static str, bool); 5], idx: usize, out: &mut [u8; 4]) {
+    let mut p = 0;
+    while p < 5 {
+        if p == idx {
+            let b = pool[p].0.as_bytes();
+            out[0] = b[0];
+            out[1] = b[1];
+            out[2] = b[2];
+            out[3] = b[3];
+        }
+        p += 1;
+    }
+}
+fn pick1(pool: &[&'static str], idx: usize, out: &mut [u8; 1]) {
+    let mut p = 0;
+    while p < pool.len() {
+        if p == idx {
+            out[0] = pool[p].as_bytes()[0];
+        }
+        p += 1;
+    }
+}
 
 fn same(a: &str, b: &str) -> bool {
     let (a, b) = (a.as_bytes(), b.as_bytes());
@@ -38,10 +65,60 @@ fn same(a: &str, b: &str) -> bool {
 }
 
 /// expected error kinds: 0 dup appender, 1 nonexistent appender, 2 dup logger, 3 invalid logger
+/// `text` is identified by (pool, index) rather than by a `&str`: a string chosen by a symbolic
+/// index would be a symbolic pointer, and every later byte access a case split
 #[derive(Clone, Copy, PartialEq)]
 struct Exp {
     kind: u8,
-    text: &'static str,
+    /// 0 = appender names, 1 = references, 2 = logger names
+    pool: u8,
+    idx: usize,
+}
+
+fn text_is(got: &str, pool: u8, idx: usize) -> bool {
+    match pool {
+        0 => {
+            let mut p = 0;
+            while p < APP_POOL.len() {
+                if p == idx {
+                    return same(got, APP_POOL[p]);
+                }
+                p += 1;
+            }
+            false
+        }
+        1 => {
+            let mut p = 0;
+            while p < REF_POOL.len() {
+                if p == idx {
+                    return same(got, REF_POOL[p]);
+                }
+                p += 1;
+            }
+            false
+        }
+        _ => {
+            let mut p = 0;
+            while p < LOG_POOL.len() {
+                if p == idx {
+                    return same(got, LOG_POOL[p].0);
+                }
+                p += 1;
+            }
+            false
+        }
+    }
+}
+
+fn log_valid(idx: usize) -> bool {
+    let mut p = 0;
+    while p < LOG_POOL.len() {
+        if p == idx {
+            return LOG_POOL[p].1;
+        }
+        p += 1;
+    }
+    false
 }
 
 fn kind_of(e: &ConfigError) -> (u8, &str) {
@@ -66,23 +143,35 @@ pub fn body(napp: usize, nlog: usize, strict: bool, free: u8, fixed: [usize; 10]
     let mut b = Config::builder();
     for i in 0..napp {
         app_idx[i] = if free == 0 && i == napp - 1 { sym::below(2) as usize } else { fixed[i] };
-        b = b.appender(Appender::builder().build(APP_POOL[app_idx[i]], Box::new(Nop)));
+        let mut nb = [0u8; 1];
+        pick1(&APP_POOL, app_idx[i], &mut nb);
+        b = b.appender(Appender::builder().build(unsafe { std::str::from_utf8_unchecked(&nb) }, Box::new(Nop)));
     }
     for i in 0..nlog {
         log_idx[i] = if free == 1 && i == nlog - 1 { sym::below(5) as usize } else { fixed[3 + i] };
         log_ref[i] = if free == 2 && i == nlog - 1 { sym::below(3) as usize } else { fixed[6 + i] };
-        b = b.logger(LoggerCfg::builder().appender(REF_POOL[log_ref[i]]).build(LOG_POOL[log_idx[i]].0, LevelFilter::Info));
+        let mut nb = [0u8; 4];
+        pick4(&LOG_POOL, log_idx[i], &mut nb);
+        let mut rb = [0u8; 1];
+        pick1(&REF_POOL, log_ref[i], &mut rb);
+        b = b.logger(
+            LoggerCfg::builder()
+                .appender(unsafe { std::str::from_utf8_unchecked(&rb) })
+                .build(unsafe { std::str::from_utf8_unchecked(&nb) }, LevelFilter::Info),
+        );
     }
-    let root = Root::builder().appender(REF_POOL[root_ref]).build(LevelFilter::Warn);
+    let mut rb = [0u8; 1];
+    pick1(&REF_POOL, root_ref, &mut rb);
+    let root = Root::builder().appender(unsafe { std::str::from_utf8_unchecked(&rb) }).build(LevelFilter::Warn);
 
     // ---- reference ------------------------------------------------------------------------
-    let mut exp: [Exp; 8] = [Exp { kind: 9, text: "" }; 8];
+    let mut exp: [Exp; 8] = [Exp { kind: 9, pool: 0, idx: 0 }; 8];
     let mut ne = 0;
     let mut have = [false; 2]; // appender names present
     let mut kept_app = [false; 3];
     for i in 0..napp {
         if have[app_idx[i]] {
-            exp[ne] = Exp { kind: 0, text: APP_POOL[app_idx[i]] };
+            exp[ne] = Exp { kind: 0, pool: 0, idx: app_idx[i] };
             ne += 1;
         } else {
             have[app_idx[i]] = true;
@@ -92,7 +181,7 @@ pub fn body(napp: usize, nlog: usize, strict: bool, free: u8, fixed: [usize; 10]
     let exists = |r: usize| r < 2 && have[r];
     let root_ok = exists(root_ref);
     if !root_ok {
-        exp[ne] = Exp { kind: 1, text: REF_POOL[root_ref] };
+        exp[ne] = Exp { kind: 1, pool: 1, idx: root_ref };
         ne += 1;
     }
     let mut seen = [false; 5];
@@ -101,13 +190,13 @@ pub fn body(napp: usize, nlog: usize, strict: bool, free: u8, fixed: [usize; 10]
     for i in 0..nlog {
         let li = log_idx[i];
         if seen[li] {
-            exp[ne] = Exp { kind: 2, text: LOG_POOL[li].0 };
+            exp[ne] = Exp { kind: 2, pool: 2, idx: li };
             ne += 1;
             continue;
         }
         seen[li] = true;
-        if !LOG_POOL[li].1 {
-            exp[ne] = Exp { kind: 3, text: LOG_POOL[li].0 };
+        if !log_valid(li) {
+            exp[ne] = Exp { kind: 3, pool: 2, idx: li };
             ne += 1;
             continue;
         }
@@ -115,7 +204,7 @@ pub fn body(napp: usize, nlog: usize, strict: bool, free: u8, fixed: [usize; 10]
         if exists(log_ref[i]) {
             kept_ref[i] = true;
         } else {
-            exp[ne] = Exp { kind: 1, text: REF_POOL[log_ref[i]] };
+            exp[ne] = Exp { kind: 1, pool: 1, idx: log_ref[i] };
             ne += 1;
         }
     }
@@ -139,7 +228,7 @@ pub fn body(napp: usize, nlog: usize, strict: bool, free: u8, fixed: [usize; 10]
         let mut k = 0;
         for i in 0..napp {
             if kept_app[i] {
-                assert!(k < cfg.appenders().len() && same(cfg.appenders()[k].name(), APP_POOL[app_idx[i]]), "C13: lossy keeps the valid appenders in order");
+                assert!(k < cfg.appenders().len() && text_is(cfg.appenders()[k].name(), 0, app_idx[i]), "C13: lossy keeps the valid appenders in order");
                 k += 1;
             }
         }
@@ -150,7 +239,7 @@ pub fn body(napp: usize, nlog: usize, strict: bool, free: u8, fixed: [usize; 10]
             if kept_log[i] {
                 assert!(k < cfg.loggers().len(), "C13: lossy keeps the valid loggers");
                 let l = &cfg.loggers()[k];
-                assert!(same(l.name(), LOG_POOL[log_idx[i]].0), "C13: lossy keeps the valid loggers in order");
+                assert!(text_is(l.name(), 2, log_idx[i]), "C13: lossy keeps the valid loggers in order");
                 assert!(l.appenders().len() == if kept_ref[i] { 1 } else { 0 }, "C13: dangling logger references are stripped");
                 k += 1;
             }
@@ -173,7 +262,7 @@ fn check_errors(got: &[ConfigError], exp: &[Exp; 8], ne: usize) {
     while i < 8 {
         if i < ne && i < got.len() {
             let (k, t) = kind_of(&got[i]);
-            assert!(k == exp[i].kind && same(t, exp[i].text), "C13: the error names the offending item");
+            assert!(k == exp[i].kind && text_is(t, exp[i].pool, exp[i].idx), "C13: the error names the offending item");
         }
         i += 1;
     }
@@ -181,9 +270,15 @@ fn check_errors(got: &[ConfigError], exp: &[Exp; 8], ne: usize) {
 
 // fixed = [app0, app1, app2, log0, log1, log2, ref0, ref1, ref2, root]
 const F_VALID: [usize; 10] = [0, 1, 0, 0, 1, 2, 0, 1, 0, 0];
+/// all items free at once
+const F_ANY: [usize; 10] = [0; 10];
 const F_DUPS: [usize; 10] = [0, 0, 1, 0, 0, 3, 2, 1, 2, 2];
 
 harnesses! {
+    #[kani::unwind(8)]
+    fn lossy_1x2_free_logger() { body(1, 2, false, 1, F_VALID, false) }
+    #[kani::unwind(8)]
+    fn strict_1x1_free_logger() { body(1, 1, true, 1, F_VALID, false) }
     #[kani::unwind(8)]
     fn lossy_free_appender() { body(2, 2, false, 0, F_VALID, false) }
     #[kani::unwind(8)]
